@@ -151,7 +151,7 @@ def rule_forward(ctx):
                     "as a decode error instead of 'need more data'" % (ep, "::".join(m)), fn=f)
         for x in sorted(extra):
             ctx.bad(rid, "%s|unknown-route:%s" % (ep, "::".join(x)), "unexpected_eof follows a route that is not in the ADT graph (%s): analysis out of sync" % "::".join(x), fn=f)
-    ctx.floor(rid + ".routes", 25)
+    ctx.floor(rid + ".routes", 20)
 
 
 # boundary functions and the number of end-of-data questions each must ask (confirmed by reading)
@@ -312,7 +312,7 @@ def rule_sites(ctx):
             else:
                 ctx.bad(rid, "try_init|eof-edge-%d-not-NeedMoreData" % i, "the end-of-data edge of a try_init parse step does not (only) lead to NeedMoreData",
                         fn=f, pos=f.term_pos(cb))
-    ctx.floor(rid + ".questions", 12)
+    ctx.floor(rid + ".questions", 9)
 
 
 def rule_drop(ctx):
